@@ -407,7 +407,7 @@ func ruleSessionStore(c *Ctx, r *Report) {
 	if fn := c.need(r, rule, pkgF12+".flight3Parse"); fn != nil {
 		for _, call := range findCalls(fn, nameIs(pkgF12+".handleResumption")) {
 			var eq *ssa.Call
-			for _, e := range findCalls(fn, nameIs("bytes.Equal")) {
+			for _, e := range findCalls(fn, nameIs("bytes.Equal", "crypto/subtle.ConstantTimeCompare", "crypto/hmac.Equal", "slices.Equal[[]byte]")) {
 				a := e.Call.Args
 				if (isFieldLoad(a[0], tCom, "SessionID") && isFieldLoad(a[1], "pkg/protocol/handshake.MessageServerHello", "SessionID")) ||
 					(isFieldLoad(a[1], tCom, "SessionID") && isFieldLoad(a[0], "pkg/protocol/handshake.MessageServerHello", "SessionID")) {
